@@ -1,11 +1,12 @@
 (* C12 — Trace views agree with the ingested spans.
-   Statements only; proofs are in SigP.TraceProofs / SigP.TraceQsProofs.
+   Statements only; proofs are in SigP.TraceProofs / SigP.TraceQsProofs / SigP.TracePageProofs /
+   SigP.TraceAggProofs.
 
    The model (SigM.Trace) is a function of the records the query engine returns (and of the
    order of the group-by buckets / of the Go map iteration where the code depends on it);
    these orders are universally quantified in the theorems. *)
-From SigM Require Import Base Trace TracePage.
-From SigP Require Import BaseProofs TraceQsProofs TraceProofs TracePageProofs.
+From SigM Require Import Base Trace TracePage TraceAgg.
+From SigP Require Import BaseProofs TraceQsProofs TraceProofs TracePageProofs TraceAggProofs.
 From Coq Require Import Permutation.
 Open Scope N_scope.
 
@@ -389,3 +390,180 @@ Theorem C12_gantt_view_paged : forall (bat : N -> list (list span)) order recs,
   gantt_view order (paged_read_trace PAGE bat (length recs)) = gantt_view order recs.
 Proof. exact gantt_view_paged. Qed.
 Print Assumptions C12_gantt_view_paged.
+
+(* ==================================================================================== *)
+(* Seeded mutant C12h: views that AGGREGATE OVER SEVERAL STORED PERIODS (model SigM.TraceAgg)             *)
+(* ==================================================================================== *)
+(* /dependencies (ProcessAggregatedDependencyGraphs, also behind the Jaeger ProcessGetDependencies) merges the
+   graphs that the hourly job (DependencyGraphThread = MakeTracesDependancyGraph + writeDependencyMatrix)
+   stored: [run_jobs periods] is the store after the job ran once per period (time of the run, spans that
+   arrived in its window; an empty matrix is not stored), [agg_view lo hi store] the answer for a range.
+   The model follows the code after fixes 37f2dcb (the search of the handler asks for 10000 hits) and 25574c6
+   (a matrix is stored as one JSON string column "graph"; records with one column per edge, as written before,
+   are still read).
+
+   FULL STATEMENT (property text: "the service dependency graph counts exactly the parent-child span pairs that
+   cross services", here for the merged view): for ALL lists of periods, ranges and services a <> b
+       dep_count (agg_view lo hi (run_jobs periods)) (a, b)
+       = cross_pairs (concat (periods_in lo hi periods)) a b
+   i.e. the merged view equals the view of the union of the spans of the periods whose run lies in the range,
+   for any number of periods, any service names, and for edges that occur in several graphs.  Two guards
+   remain: every trace lies within one period (refuted without it: known finding
+   dep_aggregate_trace_across_hourly_windows) and at most 10000 stored graphs in the range (exact: refuted for
+   10001; more than a year of hourly graphs).  The behaviour before the two fixes is kept as
+   C12_prefix_aggregate_..._refuted documentation theorems. *)
+
+(* every cell of the merged matrix is the sum, over the hits and their columns, of what the columns hold for
+   (a, b): "+=", for ANY list of hits of either record format (a cell may repeat in any number of hits) *)
+Theorem C12_aggregate_cell_is_sum_over_hits : forall hits a b,
+  dep_count (agg_graph hits) (a, b) = hits_value a b hits.
+Proof. exact agg_graph_cell. Qed.
+Print Assumptions C12_aggregate_cell_is_sum_over_hits.
+
+(* neither the order in which the engine returns the stored graphs nor the Go map order of the columns of a
+   hit changes any cell *)
+Theorem C12_aggregate_hit_order_irrelevant : forall hits hits' k, Permutation hits hits' ->
+  dep_count (agg_graph hits) k = dep_count (agg_graph hits') k.
+Proof. exact agg_graph_hit_order. Qed.
+Print Assumptions C12_aggregate_hit_order_irrelevant.
+
+Theorem C12_aggregate_column_order_irrelevant : forall hits hits' k, Forall2 (@Permutation _) hits hits' ->
+  dep_count (agg_graph hits) k = dep_count (agg_graph hits') k.
+Proof. exact agg_graph_column_order. Qed.
+Print Assumptions C12_aggregate_column_order_irrelevant.
+
+(* a stored matrix is read back cell by cell, for ANY service names (with '.', empty, "timestamp", ...) *)
+Theorem C12_stored_matrix_read_back : forall mat a b, NoDup (map fst mat) ->
+  hit_value a b (stored_cols mat) = dep_count mat (a, b).
+Proof. exact stored_hit_value. Qed.
+Print Assumptions C12_stored_matrix_read_back.
+
+(* records written before 25574c6 (one column "parent.child" per edge) are still read: the column splits back
+   into the two names, and the matrix is read back, for names without '.' and a named parent *)
+Theorem C12_old_format_column_splits_back : forall a b, dotfree a = true -> dotfree b = true -> a <> [] ->
+  split_dot (col_key a b) = [a; b].
+Proof. exact split_col_key. Qed.
+Print Assumptions C12_old_format_column_splits_back.
+
+Theorem C12_old_format_matrix_read_back_guarded : forall mat a b,
+  NoDup (map fst mat) ->
+  (forall e, In e mat -> dotfree (fst (fst e)) = true /\ dotfree (snd (fst e)) = true) ->
+  a <> [] ->
+  hit_value a b (stored_cols_prefix mat) = dep_count mat (a, b).
+Proof. exact stored_hit_value_legacy. Qed.
+Print Assumptions C12_old_format_matrix_read_back_guarded.
+
+(* the merged view of a range = the SUM of the exact graphs of the periods whose run lies in the range
+   (runs outside the range do not count; a period whose matrix is empty stores nothing and adds nothing) *)
+Theorem C12_aggregate_is_sum_of_hourly_graphs : forall periods lo hi a b,
+  (forall p, In p periods -> NoDup (map span_key (snd p))) ->
+  (length (filter (in_range lo hi) (run_jobs periods)) <= AGG_HITS)%nat ->
+  a <> b ->
+  dep_count (agg_view lo hi (run_jobs periods)) (a, b)
+  = sumN (map (fun recs => cross_pairs recs a b) (periods_in lo hi periods)).
+Proof. exact agg_view_sum_of_periods. Qed.
+Print Assumptions C12_aggregate_is_sum_of_hourly_graphs.
+
+(* parent/child pairs never cross periods when no trace does *)
+Theorem C12_pairs_of_union_is_sum_over_periods : forall ps a b, traces_within_periods ps = true ->
+  cross_pairs (concat ps) a b = sumN (map (fun recs => cross_pairs recs a b) ps).
+Proof. exact cross_pairs_concat. Qed.
+Print Assumptions C12_pairs_of_union_is_sum_over_periods.
+
+(* GUARDED main statement: the merged view equals the view of the union of the spans.  Remaining guards (boolean /
+   decidable, each necessary - see the two refutations below): every trace lies within one period; at most
+   AGG_HITS = 10000 stored graphs in the range. *)
+Theorem C12_aggregate_equals_view_of_union_guarded : forall periods lo hi a b,
+  (forall p, In p periods -> NoDup (map span_key (snd p))) ->
+  (length (filter (in_range lo hi) (run_jobs periods)) <= AGG_HITS)%nat ->
+  traces_within_periods (periods_in lo hi periods) = true ->
+  a <> b ->
+  dep_count (agg_view lo hi (run_jobs periods)) (a, b) = cross_pairs (concat (periods_in lo hi periods)) a b.
+Proof. exact agg_view_equals_union. Qed.
+Print Assumptions C12_aggregate_equals_view_of_union_guarded.
+
+(* ... and equals the matrix MakeTracesDependancyGraph computes over all those spans at once *)
+Theorem C12_aggregate_equals_graph_of_union_guarded : forall periods lo hi a b,
+  (forall p, In p periods -> NoDup (map span_key (snd p))) ->
+  (length (filter (in_range lo hi) (run_jobs periods)) <= AGG_HITS)%nat ->
+  traces_within_periods (periods_in lo hi periods) = true ->
+  NoDup (map span_key (concat (periods_in lo hi periods))) ->
+  a <> b ->
+  dep_count (agg_view lo hi (run_jobs periods)) (a, b) = dep_count (dep_graph (concat (periods_in lo hi periods))) (a, b).
+Proof. exact agg_view_equals_graph_of_union. Qed.
+Print Assumptions C12_aggregate_equals_graph_of_union_guarded.
+
+(* The seeded variant (graph[service][dependent] = v instead of += v) is refuted by two stored graphs that share
+   the edge A -> B (2 and 3 pairs): all guards hold (so the guards are satisfiable with a non-zero cell), the
+   union has 5 pairs, the model of the code answers 5, the assignment variant 2. *)
+Theorem C12_aggregate_overwrite_refuted : exists periods lo hi,
+  (forall p, In p periods -> NoDup (map span_key (snd p))) /\
+  (length (filter (in_range lo hi) (run_jobs periods)) <= AGG_HITS)%nat /\
+  traces_within_periods (periods_in lo hi periods) = true /\
+  cross_pairs (concat (periods_in lo hi periods)) [65] [66] = 5 /\
+  dep_count (agg_view lo hi (run_jobs periods)) ([65], [66]) = 5 /\
+  dep_count (agg_graph_overwrite (range_hits lo hi (run_jobs periods))) ([65], [66]) = 2.
+Proof. exact agg_overwrite_refuted. Qed.
+Print Assumptions C12_aggregate_overwrite_refuted.
+
+(* REFUTED without the guard "every trace lies within one period" (known finding
+   dep_aggregate_trace_across_hourly_windows, still open): the parent arrives in one period, its child in the next *)
+Theorem C12_aggregate_trace_across_periods_refuted : exists periods lo hi,
+  (forall p, In p periods -> NoDup (map span_key (snd p))) /\
+  (length (filter (in_range lo hi) (run_jobs periods)) <= AGG_HITS)%nat /\
+  NoDup (map span_key (concat (periods_in lo hi periods))) /\
+  traces_within_periods (periods_in lo hi periods) = false /\
+  cross_pairs (concat (periods_in lo hi periods)) [65] [66] = 1 /\
+  dep_count (agg_view lo hi (run_jobs periods)) ([65], [66]) = 0.
+Proof. exact agg_trace_across_periods_refuted. Qed.
+Print Assumptions C12_aggregate_trace_across_periods_refuted.
+
+(* the remaining bound is exact: 10001 stored graphs A -> B:1 inside the range are merged to 10000 *)
+Theorem C12_aggregate_over_10000_graphs_refuted : exists store lo hi,
+  length (filter (in_range lo hi) store) = 10001%nat /\
+  hits_value [65] [66] (map sg_cols (filter (in_range lo hi) store)) = 10001 /\
+  dep_count (agg_view lo hi store) ([65], [66]) = 10000.
+Proof. exact agg_over_10000_graphs_refuted. Qed.
+Print Assumptions C12_aggregate_over_10000_graphs_refuted.
+
+(* PRE-FIX documentation (about [run_jobs_prefix] / [agg_view_prefix]: the writer before 25574c6 stored one
+   column "parent.child" per edge, the reader knew only those columns and, before 37f2dcb, saw 100 hits).
+   A service name that contains '.': the column "a.b.c" has three parts and was skipped (fixed model: 1). *)
+Theorem C12_prefix_aggregate_dotted_service_refuted : exists periods lo hi,
+  (forall p, In p periods -> NoDup (map span_key (snd p))) /\
+  traces_within_periods (periods_in lo hi periods) = true /\
+  cross_pairs (concat (periods_in lo hi periods)) [97;46;98] [99] = 1 /\
+  dep_count (agg_view_prefix lo hi (run_jobs_prefix periods)) ([97;46;98], [99]) = 0 /\
+  dep_count (agg_view lo hi (run_jobs periods)) ([97;46;98], [99]) = 1.
+Proof. exact prefix_agg_dotted_service_refuted. Qed.
+Print Assumptions C12_prefix_aggregate_dotted_service_refuted.
+
+(* the unnamed service "" as the parent: the column was the child's name alone and was skipped; with a '.' in the
+   child's name it was read as an edge p -> q that no trace contains *)
+Theorem C12_prefix_aggregate_unnamed_parent_refuted : exists periods lo hi,
+  (forall p, In p periods -> NoDup (map span_key (snd p))) /\
+  traces_within_periods (periods_in lo hi periods) = true /\
+  cross_pairs (concat (periods_in lo hi periods)) [] [65] = 1 /\
+  dep_count (agg_view_prefix lo hi (run_jobs_prefix periods)) ([], [65]) = 0 /\
+  dep_count (agg_view lo hi (run_jobs periods)) ([], [65]) = 1.
+Proof. exact prefix_agg_empty_parent_refuted. Qed.
+Print Assumptions C12_prefix_aggregate_unnamed_parent_refuted.
+
+Theorem C12_prefix_aggregate_phantom_edge_refuted : exists periods lo hi,
+  (forall p, In p periods -> NoDup (map span_key (snd p))) /\
+  cross_pairs (concat (periods_in lo hi periods)) [112] [113] = 0 /\
+  dep_count (agg_view_prefix lo hi (run_jobs_prefix periods)) ([112], [113]) = 1 /\
+  dep_count (agg_view lo hi (run_jobs periods)) ([112], [113]) = 0.
+Proof. exact prefix_agg_phantom_edge_refuted. Qed.
+Print Assumptions C12_prefix_aggregate_phantom_edge_refuted.
+
+(* more than 100 stored graphs in the range: 101 hourly graphs A -> B gave 100 (fixed model: 101) *)
+Theorem C12_prefix_aggregate_over_100_graphs_refuted : exists periods lo hi,
+  (forall p, In p periods -> NoDup (map span_key (snd p))) /\
+  length (filter (in_range lo hi) (run_jobs periods)) = 101%nat /\
+  traces_within_periods (periods_in lo hi periods) = true /\
+  cross_pairs (concat (periods_in lo hi periods)) [65] [66] = 101 /\
+  dep_count (agg_view_prefix lo hi (run_jobs_prefix periods)) ([65], [66]) = 100 /\
+  dep_count (agg_view lo hi (run_jobs periods)) ([65], [66]) = 101.
+Proof. exact prefix_agg_over_100_graphs_refuted. Qed.
+Print Assumptions C12_prefix_aggregate_over_100_graphs_refuted.
